@@ -3,7 +3,8 @@
 // control script to the root and records an ndjson trace.  It decides nothing; TLC (Trace_ActionTree) does.
 //
 //   driver run <programs.jsonl> <trace.ndjson>
-//     each input line: {"prog":[node,...], "script":["start","-","pause","reset+start",...], "passes":N}
+//     each input line: {"prog":[node,...], "script":["start","-","pause","reset+start","~stop",...], "passes":N}
+//     script entry: calls joined by "+" are made back to back; a leading "~" places them in the middle of the next batch
 //     node: {"k":kind,"m":mode,"c":[child ids, 0 = absent],"p":parent,"o":outcome,"d":delay,"tag":t,"to":timeout,"n":times}
 //
 // One pass of the loop = timers (SleepAction, action timeouts; virtual clock) -> this driver's step -> the deferred
@@ -242,33 +243,41 @@ void RunOne(const json &job) {
     t.root->setBlockCallback([](const Action::Reason &, const Action::Trace &) { Ev("rootblk", 0); });
 
     int pass = 0;
+    // applies one script entry ("stop", "reset+start", ...) to the root, one Ctl line per call
+    auto apply = [&](const std::string &entry, bool mid) {
+        size_t pos = 0;
+        while (pos <= entry.size()) {
+            size_t e = entry.find('+', pos);
+            if (e == std::string::npos) e = entry.size();
+            std::string op = entry.substr(pos, e - pos);
+            pos = e + 1;
+            bool ret = true;
+            if (op == "start") ret = t.root->start();
+            else if (op == "pause") ret = t.root->pause();
+            else if (op == "resume") ret = t.root->resume();
+            else if (op == "stop") ret = t.root->stop();
+            else if (op == "reset") t.root->reset();
+            else Bad("op " + op);
+            vh::T().printf("{\"e\":\"Ctl\",\"op\":\"%s\",\"ret\":%s,\"mid\":%s}", op.c_str(), ret ? "true" : "false", mid ? "true" : "false");
+        }
+    };
     std::function<void()> step = [&] {
         if (pass > 0) Snap(t);                 // state after the previous pass (its timers and deliveries included)
         if (pass >= passes) { loop->exitLoop(); return; }
         loop->runNext(step, "driver");         // keep this task first in the next batch
-        if (pass < int(script.size()) && script[pass] != "-") {
-            // one entry may hold several calls made back to back in the same pass: "reset+start"
-            std::string entry = script[pass];
-            size_t pos = 0;
-            while (pos <= entry.size()) {
-                size_t e = entry.find('+', pos);
-                if (e == std::string::npos) e = entry.size();
-                std::string op = entry.substr(pos, e - pos);
-                pos = e + 1;
-                bool ret = true;
-                if (op == "start") ret = t.root->start();
-                else if (op == "pause") ret = t.root->pause();
-                else if (op == "resume") ret = t.root->resume();
-                else if (op == "stop") ret = t.root->stop();
-                else if (op == "reset") t.root->reset();
-                else Bad("op " + op);
-                vh::T().printf("{\"e\":\"Ctl\",\"op\":\"%s\",\"ret\":%s}", op.c_str(), ret ? "true" : "false");
-            }
-        }
+        std::string entry = pass < int(script.size()) ? script[pass] : "-";
+        if (entry != "-" && entry[0] != '~')
+            apply(entry, false);
         for (auto p : t.probes) p->tick();
         g_now_ms += kTickMs;
         vh::T().line("{\"e\":\"Tick\"}");
         ++pass;
+        if (entry[0] == '~') {
+            // a call placed in the middle of the next batch: after the notifications queued by this step,
+            // before those queued by this pass's deliveries
+            std::string late = entry.substr(1);
+            loop->runNext([&, late] { Snap(t); apply(late, true); }, "driver-mid");
+        }
     };
     loop->runNext(step, "driver");
     loop->runLoop(event::Loop::Mode::kForever);
